@@ -16,11 +16,15 @@ import random
 
 from .facts import split_ites
 from .symex import Sym, TooManyPaths, show
-from .termeval import Evaluator, NotEvaluable, _canon_leaf
+from .termeval import Evaluator, NotEvaluable, EvalRaises, _canon_leaf
 
 
 class Undecided(Exception):
     pass
+
+
+class DecidedRaise(Undecided):
+    """evaluating the term at this (valid) point raises: rules that care report it as a violation; for the others it is undecided"""
 
 
 def deep_leaves(cx, mod, cls, fn, limit=64):
@@ -72,6 +76,8 @@ def value(term, ev, fields=None):
         before = dict(ev.leaves)
         try:
             v = ev.ev(term)
+        except EvalRaises as exc:
+            raise DecidedRaise('%s raises %s' % (show(term)[:80], exc))
         except NotEvaluable as exc:
             raise Undecided('term %s not evaluable (%s)' % (show(term)[:80], exc))
         new = [k for k in ev.leaves if k not in before]
